@@ -94,6 +94,14 @@ def build(case):
             elif tk == "dir_plain":
                 L = ["```{note}", f":name: {name}", f"{mk} body", "```"]
                 nodekind = "admonition"
+            elif tk == "attr_quote":
+                # a container WITHOUT a title of its own that holds titled things: its implicit text is still '#name'
+                L = [f"{{#{name}}}", f"> {mk} quoted", ">", f"> #### Nested head {mk}x", ">", f"> ```{{admonition}} Inner adm {mk}y", "> inner", "> ```"]
+                nodekind = "quote"
+                heads.append((f"Nested head {mk}x", 4, "quote"))
+            elif tk == "dir_nested":
+                L = ["~~~~~{note}", f":name: {name}", f"{mk} body", "", "~~~~{admonition} Inner title " + mk + "x", "inner", "~~~~", "", "~~~~{table} Caption " + mk + "y", "| a |", "|---|", "~~~~", "~~~~~"]
+                nodekind = "admonition"
             elif tk == "slug":
                 title = it["title"] + f" {mk}" if it.get("uniq") else it["title"]
                 L = [f"{'#' * it['level']} {title}"]
@@ -236,7 +244,7 @@ def eval_case(ctx, case):
         if tkey is not None:
             t = targets[tkey]
             how = "explicit"
-            want = {"paragraph": (nodes.paragraph,), "heading": (nodes.section, nodes.rubric), "inline": (nodes.inline,), "admonition": (nodes.Admonition,)}[t["nodekind"]]
+            want = {"paragraph": (nodes.paragraph,), "heading": (nodes.section, nodes.rubric), "inline": (nodes.inline,), "admonition": (nodes.Admonition,), "quote": (nodes.block_quote,)}[t["nodekind"]]
             exp_node = node_with(t["marker"], want)
             if t["nodekind"] == "inline":
                 # the innermost inline carrying the id
@@ -320,7 +328,7 @@ def eval_case(ctx, case):
 
 # ------------------------------------------------------------------------------------------- workload
 
-TK = ["block_para", "block_heading", "attr_para", "attr_heading", "attr_span", "dir_title", "dir_plain", "slug"]
+TK = ["block_para", "block_heading", "attr_para", "attr_heading", "attr_span", "dir_title", "dir_plain", "slug", "attr_quote", "dir_nested"]
 TITLES = ["Alpha Beta", "alpha beta", "Gamma", "Gamma", "Gamma 1", "gamma-1", "Delta!", "x `code` y", "Ünï cödé", "Straße", "Οδός Ερμής", "ﬁne ligature", "ÉCOLE Élan", "日本 語", "ǅungla"]  # lower-casing is not case-folding
 
 
@@ -348,7 +356,7 @@ def make_case(R):
             if slug_titles and R.random() < 0.25:
                 name = slug0(R.choice(slug_titles))  # explicit name colliding with a heading slug
             else:
-                name = R.choice(["tgt", "my-target", "a_b", "ünï", "x", "Install-Guide", "My_Target", "UPPER", "Ünï-Cödé"] + (["t.x", "sec 1", "a:b"] if tk in ("block_para", "block_heading", "dir_title", "dir_plain") else [])) + str(i)
+                name = R.choice(["tgt", "my-target", "a_b", "ünï", "x", "Install-Guide", "My_Target", "UPPER", "Ünï-Cödé"] + (["t.x", "sec 1", "a:b"] if tk in ("block_para", "block_heading", "dir_title", "dir_plain", "dir_nested") else [])) + str(i)
             if name.lower() in [x.lower() for x in names] or not name:
                 name = f"n{i}"
             names.append(name)
